@@ -9,6 +9,7 @@ package bfe_tls
 //@   props C43
 //@   arith bv
 //@   nopanic
+//@   modifies nothing
 //@   requires len(payload) <= 18432
 //@   let n := len(payload)
 //@   let p := int(payload[n-1])
@@ -23,12 +24,13 @@ package bfe_tls
 //@   props C43
 //@   arith bv
 //@   nopanic
+//@   modifies nothing
 //@   requires len(payload) <= 18432
 //@   let n := len(payload)
 //@   let p := int(payload[n-1])
 //@   ensures[accept] n >= 1 && p+1 <= n ==> result1 == 255 && len(result0) == n-(p+1)
 //@   ensures[reject] !(n >= 1 && p+1 <= n) ==> result1 == 0 && len(result0) == n
-//@   ensures[prefix] sameptr(result0, payload)
+//@   ensures[prefix] sameptr(result0, payload) && len(result0) <= n
 
 //@ func (*clientHelloMsg).unmarshal
 //@   props C45
@@ -212,3 +214,84 @@ package bfe_tls
 //@   props C41
 //@   modifies nothing
 //@   ensures result0 != nil
+
+// ---- C42: record integrity — a record is handed up only if its MAC / AEAD tag verified; the sequence number
+// advances exactly on accepted records ----
+
+//@ spec seqVal(hc *halfConn) int := int(hc.seq[0]) * 72057594037927936 + int(hc.seq[1]) * 281474976710656 + int(hc.seq[2]) * 1099511627776 + int(hc.seq[3]) * 4294967296 + int(hc.seq[4]) * 16777216 + int(hc.seq[5]) * 65536 + int(hc.seq[6]) * 256 + int(hc.seq[7])
+
+//@ func (*halfConn).incSeq
+//@   props C42
+//@   nopanic index
+//@   requires hc != nil
+//@   modifies hc.seq
+//@   ensures[the_record_sequence_number_advances_by_one] seqVal(hc) == old(seqVal(hc)) + 1
+//@   loop 1 invariant[carry] -1 <= i && i <= 7 && (forall k int :: i < k && k <= 7 ==> hc.seq[k] == 0 && old(hc.seq[k]) == 255) && (forall k int :: 0 <= k && k <= i ==> hc.seq[k] == old(hc.seq[k]))
+
+//@ func (*block).resize
+//@   props C42
+//@   nopanic
+//@   requires b != nil && 0 <= n && n <= cap(b.data)
+//@   frame reserve args
+//@   modifies b.data
+//@   ensures[same_bytes_new_length] len(b.data) == n && base(b.data) == old(base(b.data)) && off(b.data) == old(off(b.data)) && cap(b.data) == old(cap(b.data))
+
+//@ func (macFunction).Size
+//@   trusted a MAC size is a small non-negative number
+//@   modifies nothing
+//@   ensures 0 <= result0 && result0 <= 64
+
+//@ func (macFunction).MAC
+//@   trusted the record MAC is a function of the sequence number, the record header and the payload (digestBuf is scratch space)
+//@   modifies digestBuf[..]
+
+//@ func (aead).explicitNonceLen
+//@   trusted the explicit nonce is 0 or 8 octets
+//@   modifies nothing
+//@   ensures result0 == 0 || result0 == 8
+
+//@ func (cbcMode).SetIV
+//@   trusted writes only the cipher's own state
+//@   modifies nothing
+
+//@ spec aeadOv(a aead) int := abstract
+
+//@ func (aead).Overhead
+//@   trusted cipher.AEAD: the tag length, a small non-negative constant of the cipher
+//@   modifies nothing
+//@   ensures 0 <= result0 && result0 <= 64 && result0 == aeadOv(recv)
+
+//@ func (aead).Open
+//@   trusted cipher.AEAD.Open called with dst = ciphertext[:0]: on success the plaintext is Overhead() octets shorter than the ciphertext and overwrites it in place; only byte buffers are written
+//@   modifies dst[0:cap(dst)]
+//@   ensures result1 == nil ==> len(ciphertext) >= aeadOv(recv) && len(result0) == len(ciphertext) - aeadOv(recv) && base(result0) == base(dst) && off(result0) == off(dst)
+
+//@ func (cbcMode).BlockSize
+//@   trusted cipher.BlockMode: the block size of a block cipher (8 or 16)
+//@   modifies nothing
+//@   ensures result0 == 8 || result0 == 16
+
+//@ func (cbcMode).CryptBlocks
+//@   trusted cipher.BlockMode.CryptBlocks writes only dst
+//@   modifies dst[..]
+
+//@ func roundUp
+//@   props C42
+//@   nopanic
+//@   requires a >= 0 && a <= 1000000 && b >= 1 && b <= 1000000
+//@   modifies nothing
+//@   ensures[next_multiple] result0 >= a && result0 < a + b && result0 % b == 0
+
+//@ func (*halfConn).decrypt
+//@   props C42,C43
+//@   nopanic
+//@   requires hc != nil && b != nil
+//@   requires[a_record_is_a_header_plus_at_most_the_maximum_ciphertext] recordHeaderLen <= len(b.data) && len(b.data) <= recordHeaderLen + maxCiphertext
+//@   requires[the_cipher_is_one_of_the_three_kinds] hc.cipher == nil || typeis(hc.cipher, "cipher.Stream") || typeis(hc.cipher, "aead") || typeis(hc.cipher, "cbcMode")
+//@   requires[the_record_buffer_and_the_digest_scratch_buffer_are_not_the_sequence_number] base(b.data) != embed(hc, "seq") && base(hc.inDigestBuf) != embed(hc, "seq")
+//@   requires hc.version == VersionSSL30 || hc.version == VersionTLS10 || hc.version == VersionTLS11 || hc.version == VersionTLS12
+//@   modifies *
+//@   assert[an_aead_record_is_opened_with_the_current_sequence_number_the_record_header_and_the_plaintext_length_as_additional_data] at "payload, err = c.Open(payload[:0], nonce, payload, additionalData[:])" :: (forall k int :: 0 <= k && k < 8 ==> additionalData[k] == hc.seq[k]) && additionalData[8] == b.data[0] && additionalData[9] == b.data[1] && additionalData[10] == b.data[2] && (0 <= n ==> int(additionalData[11]) * 256 + int(additionalData[12]) == n)
+//@   assert[a_record_with_a_mac_is_accepted_only_if_the_mac_and_the_padding_verify] at "hc.inDigestBuf = localMAC" :: paddingGood == 255 && len(localMAC) == len(remoteMAC) && (forall k int :: 0 <= k && k < len(localMAC) ==> localMAC[k] == remoteMAC[k])
+//@   ensures[the_sequence_number_advances_exactly_on_accepted_records] (ok ==> seqVal(hc) == old(seqVal(hc)) + 1) && (!ok ==> seqVal(hc) == old(seqVal(hc)))
+//@   ensures[the_application_data_starts_after_the_header_and_the_explicit_iv] ok ==> recordHeaderLen <= prefixLen && prefixLen <= len(b.data)
